@@ -48,10 +48,13 @@ struct CcCase {
     empty: Option<(String, usize)>,
     /// table whose every paging state is the SAME bytes (the server keeps the position itself)
     constant: Option<String>,
+    /// (table, client-side metadata request timeout ms, delay ms): every page of that table is answered `delay` after
+    /// it was asked for - well within the timeout - while the whole iteration takes longer than one timeout
+    slow: Option<(String, u64, u64)>,
 }
 impl CcCase {
     fn json(&self) -> Value {
-        json!({"leg": "control", "peers": self.peers, "splits": self.splits, "fault": self.fault.as_ref().map(|(t, p, k)| json!([t, p, k])), "empty_state": self.empty.as_ref().map(|(t, k)| json!([t, k])), "constant_state": self.constant})
+        json!({"leg": "control", "peers": self.peers, "splits": self.splits, "fault": self.fault.as_ref().map(|(t, p, k)| json!([t, p, k])), "empty_state": self.empty.as_ref().map(|(t, k)| json!([t, k])), "constant_state": self.constant, "slow": self.slow.as_ref().map(|(t, a, b)| json!([t, a, b]))})
     }
     fn from_json(v: &Value) -> Option<CcCase> {
         let splits = v["splits"].as_object()?.iter().map(|(k, s)| (k.clone(), s.as_array().map(|a| a.iter().map(|x| x.as_u64().unwrap_or(0) as usize).collect()).unwrap_or_default())).collect();
@@ -63,7 +66,10 @@ impl CcCase {
             Value::Array(a) if a.len() == 2 => Some((a[0].as_str()?.to_string(), a[1].as_u64()? as usize)),
             _ => None,
         };
-        Some(CcCase { peers: v["peers"].as_u64()? as usize, splits, fault, empty, constant: v["constant_state"].as_str().map(|s| s.to_string()) })
+        Some(CcCase { peers: v["peers"].as_u64()? as usize, splits, fault, empty, constant: v["constant_state"].as_str().map(|s| s.to_string()), slow: match &v["slow"] {
+            Value::Array(a) if a.len() == 3 => Some((a[0].as_str()?.to_string(), a[1].as_u64()?, a[2].as_u64()?)),
+            _ => None,
+        } })
     }
 }
 
@@ -72,6 +78,8 @@ struct Shared {
     armed: Option<(String, usize, String)>,
     empty: Option<(String, usize)>,
     constant: Option<String>,
+    /// every answer to a page request of this table is parked (released by the case after its delay)
+    slow_table: Option<String>,
     /// per table: next page not yet answered (for the constant paging state)
     cursors: BTreeMap<String, usize>,
     fired: usize,
@@ -87,6 +95,8 @@ struct World {
     shared: Arc<Mutex<Shared>>,
     peers: usize,
     cases: usize,
+    /// client-side metadata request timeout the session was built with (ms)
+    timeout_ms: Option<u64>,
 }
 
 fn table_of(stmt: Option<&str>) -> Option<String> {
@@ -181,6 +191,9 @@ impl World {
                 }
                 Some(reply)
             };
+            if g.slow_table.as_deref() == Some(table.as_str()) && ctx.opcode() == Opcode::Execute {
+                g.held.insert(ctx.entry.seq);
+            }
             let hit = matches!((&g.armed, page), (Some((t, p, _)), Some(pg)) if *t == table && *p == pg) && ctx.opcode() == Opcode::Execute;
             if !hit {
                 drop(g);
@@ -213,13 +226,16 @@ impl World {
         });
         let sh = shared.clone();
         cluster.hold(move |a| a.request_entry().map(|e| sh.lock().unwrap().held.contains(&e.seq)).unwrap_or(false));
-        let session = SessionBuilder::new()
-            .known_node(cluster.contact_point(0))
-            .cluster_metadata_refresh_interval(Duration::from_secs(3600))
+        let timeout_ms = first.slow.as_ref().map(|s| s.1);
+        let mut sb = SessionBuilder::new().known_node(cluster.contact_point(0)).cluster_metadata_refresh_interval(Duration::from_secs(3600));
+        if let Some(ms) = timeout_ms {
+            sb = sb.metadata_request_clientside_timeout(Duration::from_millis(ms));
+        }
+        let session = sb
             .build()
             .await
             .map_err(|e| format!("session did not come up ({peers} peers, splits {:?}): {e}", first.splits))?;
-        Ok(World { cluster, session: Arc::new(session), shared, peers, cases: 0 })
+        Ok(World { cluster, session: Arc::new(session), shared, peers, cases: 0, timeout_ms })
     }
 
     async fn teardown(self) {
@@ -330,6 +346,64 @@ impl World {
         let mut outcome = String::from("ok");
         let mut from = self.cluster.log_len();
         let _ = already_fetched;
+        if let Some((t, timeout_ms, delay_ms)) = &case.slow {
+            // Every page of `t` is answered `delay` (wall clock) after it was asked for: each page well within the
+            // request timeout, the iteration as a whole longer than one timeout. No failure is scripted, so the refresh
+            // must succeed and publish everything. (The only place of this check where wall-clock time is part of the
+            // scenario: margin per page = timeout - delay.)
+            self.shared.lock().unwrap().slow_table = Some(t.clone());
+            let s = self.session.clone();
+            let mut h = tokio::spawn(async move { s.refresh_metadata().await.map_err(|e| e.to_string()) });
+            let t0 = std::time::Instant::now();
+            let mut released = 0usize;
+            let res = loop {
+                tokio::select! {
+                    r = &mut h => break r,
+                    a = self.cluster.wait_held("a parked page answer of the slow table", |a| !a.is_accept()) => {
+                        let Ok(a) = a else { continue };
+                        tokio::time::sleep(Duration::from_millis(*delay_ms)).await;
+                        if let Some(e) = a.request_entry() {
+                            self.shared.lock().unwrap().held.remove(&e.seq);
+                        }
+                        self.cluster.release(a.id);
+                        released += 1;
+                    }
+                }
+                if t0.elapsed() > DEADLINE * 2 {
+                    h.abort();
+                    complaints.push(("control:liveness:refresh-did-not-return".to_string(), format!("slow pages of {t}: refresh_metadata did not return")));
+                    return Ok((complaints, "hang".into()));
+                }
+            };
+            {
+                let mut g = self.shared.lock().unwrap();
+                g.slow_table = None;
+                g.held.clear();
+            }
+            self.cluster.release_all();
+            let pages = case.splits[t].len();
+            match res {
+                Err(e) => return Err(format!("refresh task: {e}")),
+                Ok(Err(e)) => complaints.push((
+                    "control:unexpected-error:slow-pages".to_string(),
+                    format!("{t} in {pages} pages, each answered {delay_ms} ms after its request (request timeout {timeout_ms} ms, {released} pages released, {} ms in total): no failure was scripted, yet the refresh failed: {e}", t0.elapsed().as_millis()),
+                )),
+                Ok(Ok(())) => {}
+            }
+            for (k, tx) in self.check_state() {
+                complaints.push((format!("{k}:slow-pages"), format!("{tx} [{t} in {pages} pages, each answered {delay_ms} ms after its request, request timeout {timeout_ms} ms]")));
+            }
+            if complaints.is_empty() {
+                complaints.extend(self.check_frames(from, case, None));
+            }
+            outcome = format!("slow-pages:{}", if complaints.is_empty() { "ok" } else { "violation" });
+            if !complaints.is_empty() {
+                // what follows a failed iteration (re-fetches, a producer still running) is not judged
+                return Ok((complaints, outcome));
+            }
+            self.shared.lock().unwrap().counts.clear();
+            from = self.cluster.log_len();
+        }
         if let Some((t, p, kind)) = &case.fault {
             let s = self.session.clone();
             let h = tokio::spawn(async move { s.refresh_metadata().await.map_err(|e| e.to_string()) });
@@ -453,15 +527,15 @@ fn gen_cases(max_peers: usize, faults: bool, thorough: bool) -> Vec<CcCase> {
         for i in 0..n {
             // every table walks through ALL its splits (independently; the tables are read by independent pagers)
             let sp: BTreeMap<String, Vec<usize>> = lists.iter().map(|(t, l)| (t.to_string(), l[i % l.len()].clone())).collect();
-            v.push(CcCase { peers, splits: sp.clone(), fault: None, empty: None, constant: None });
+            v.push(CcCase { peers, splits: sp.clone(), fault: None, empty: None, constant: None, slow: None });
             // the same refresh with a ZERO-LENGTH paging state at one position (rotating) of system.peers, and on the
             // 2-node cluster of system_schema.columns
             for t in ["system.peers", "system_schema.columns"] {
                 let pages = sp[t].len();
                 let list_len = lists.iter().find(|(x, _)| *x == t).unwrap().1.len();
                 if pages >= 2 && i < list_len && (t == "system.peers" || peers == 1) {
-                    v.push(CcCase { peers, splits: sp.clone(), fault: None, empty: Some((t.to_string(), 1 + i % (pages - 1))), constant: None });
-                    v.push(CcCase { peers, splits: sp.clone(), fault: None, empty: None, constant: Some(t.to_string()) });
+                    v.push(CcCase { peers, splits: sp.clone(), fault: None, empty: Some((t.to_string(), 1 + i % (pages - 1))), constant: None, slow: None });
+                    v.push(CcCase { peers, splits: sp.clone(), fault: None, empty: None, constant: Some(t.to_string()), slow: None });
                 }
             }
         }
@@ -481,11 +555,27 @@ fn gen_cases(max_peers: usize, faults: bool, thorough: bool) -> Vec<CcCase> {
                         for kind in ["invalid", "delay", "reset", "unprepared"] {
                             let mut sp: BTreeMap<String, Vec<usize>> = lists.iter().map(|(t, l)| (t.to_string(), l[i % l.len()].clone())).collect();
                             sp.insert(ft.to_string(), s.clone());
-                            v.push(CcCase { peers, splits: sp, fault: Some((ft.to_string(), p, kind.to_string())), empty: None, constant: None });
+                            v.push(CcCase { peers, splits: sp, fault: Some((ft.to_string(), p, kind.to_string())), empty: None, constant: None, slow: None });
                         }
                     }
                 }
             }
+        }
+    }
+    // a handful of slow iterations (wall clock): timeout 1500 ms, every page 600 ms -> 900 ms margin per page, while
+    // 4 / 5 pages take 2400 / 3000 ms in total
+    let one = |peers: usize, table: &str, split: Vec<usize>| -> CcCase {
+        let mut sp: BTreeMap<String, Vec<usize>> = TABLES.iter().map(|t| (t.to_string(), vec![rows_of(t, peers)])).collect();
+        sp.insert(table.to_string(), split);
+        CcCase { peers, splits: sp, fault: None, empty: None, constant: None, slow: Some((table.to_string(), 1500, 600)) }
+    };
+    if max_peers >= 4 {
+        v.push(one(4, "system.peers", vec![1, 1, 1, 1]));
+        v.push(one(3, "system.peers", vec![1, 0, 1, 0, 1]));
+        v.push(one(1, "system_schema.columns", vec![1, 1, 1, 1]));
+        if thorough {
+            v.push(one(4, "system.peers", vec![0, 2, 0, 1, 1, 0]));
+            v.push(one(2, "system.peers", vec![0, 1, 0, 1]));
         }
     }
     v
@@ -516,7 +606,7 @@ async fn worker(cases: Arc<Vec<CcCase>>, next: Arc<AtomicUsize>, out: Arc<Mutex<
         }
         let case = &cases[i];
         let mut fresh = false;
-        if world.as_ref().map(|w| w.peers != case.peers || w.cases >= 300).unwrap_or(true) {
+        if world.as_ref().map(|w| w.peers != case.peers || w.cases >= 300 || w.timeout_ms != case.slow.as_ref().map(|s| s.1)).unwrap_or(true) {
             if let Some(w) = world.take() {
                 w.teardown().await;
             }
@@ -617,12 +707,14 @@ fn main() {
     let max_peers = r.args.extra_value("--peers").and_then(|s| s.parse().ok()).unwrap_or(if thorough { 5 } else { 4 });
     let mut cases = gen_cases(max_peers, true, thorough);
     // smallest clusters first, within a size fault-free before faulted (stable: simplest splits first)
-    cases.sort_by_key(|c| (c.peers, c.fault.is_some()));
+    // the few slow (wall-clock) cases first so that they overlap with everything else
+    cases.sort_by_key(|c| (c.slow.is_none(), c.peers, c.fault.is_some()));
     let total = cases.len();
     for c in cases.iter().step_by((total / 4).max(1)).take(4) {
         r.sample(c.json());
     }
     r.counters.add("cases_fault_free", cases.iter().filter(|c| c.fault.is_none()).count() as u64);
+    r.counters.add("cases_slow_pages_total_longer_than_request_timeout", cases.iter().filter(|c| c.slow.is_some()).count() as u64);
     r.counters.add("cases_with_constant_paging_state", cases.iter().filter(|c| c.constant.is_some()).count() as u64);
     r.counters.add("cases_with_zero_length_paging_state", cases.iter().filter(|c| c.empty.is_some()).count() as u64);
     for k in ["invalid", "delay", "reset", "unprepared"] {
